@@ -80,7 +80,8 @@ def _mk(exists, matches, order, commit):
             continue
         name = NAMES[idx]
         if exists[idx]:
-            files[name] = CONTENT
+            # line endings differ per file: LF, CRLF, CR, LF (the dry and the real path must agree on every regime)
+            files[name] = CONTENT.replace("\n", ["\n", "\r\n", "\r", "\n"][idx])
         file_patterns[name] = [
             _COMPILE(VP, RAW[p])._replace(regexp=ByTextRe(NEEDLES[p], matches[idx][p])) for p in range(NPAT)
         ]
